@@ -587,7 +587,7 @@ func (p *Path) mkRange(x Value, site ssa.Instruction) Value {
 			for i := range idx {
 				idx[i] = i
 			}
-			if p.E.Cfg.PermuteMaps && n > 1 {
+			if p.permuteOn() && n > 1 {
 				// symbolic schedule: the iteration order is a nondeterministic choice
 				rest := idx
 				var order []int
@@ -649,4 +649,11 @@ func (p *Path) narrow32(x FloatV) FloatV {
 	r := p.floatStub("f64to32", x)
 	r.Bits = 32
 	return r
+}
+
+func (p *Path) permuteOn() bool {
+	if v, ok := p.side["permute"]; ok {
+		return v.(bool)
+	}
+	return p.E.Cfg.PermuteMaps
 }
